@@ -12,6 +12,9 @@ package main
 //	    rs=1|2: the encoder is NOT new: it was first used on another (write-at) destination — 1: a complete sequence,
 //	    2: an interrupted one (stream: a message without SequenceCompleted; batch: an Encode that failed half-way) — and then
 //	    handed the destination with Reset(w, opts…). The model's answer is that of a new encoder: Reset = New.
+//	    ap=1: the destination behaves like an *os.File opened with O_APPEND: every Write lands at the END whatever the
+//	    position is (third caveat of encoder.New: "behavior not specified"; kinds plain/seek/both; properties n/a). The model's
+//	    answer: the same operations, replayed with Dest.runAppend.
 //	    pos: where the pre-filled destination is positioned (default: at its end, the documented use; anything else is the
 //	    caveat "seek to the end first" — model and code must still agree on what gets written, the properties are n/a).
 //	    f: the k-th operation on the destination fails after taking at most j bytes (entry k.j) or — breaking io.Writer's
@@ -69,6 +72,7 @@ type wrDest struct {
 	nops   int
 	faults map[int]int
 	shorts map[int]int // operation number → bytes taken WITHOUT an error being returned
+	app    bool        // O_APPEND: writes land at the end
 	log    []string
 	fired  []int // operation numbers at which a fault fired
 	raw    []wrRawOp
@@ -131,6 +135,9 @@ func (d *wrDest) short() (int, bool) {
 
 func (d *wrDest) write(p []byte) (int, error) {
 	d.raw = append(d.raw, wrRawOp{'w', append([]byte(nil), p...), 0})
+	if d.app {
+		d.pos = int64(len(d.buf))
+	}
 	if j, sh := d.short(); sh {
 		t := min(j, len(p))
 		d.store(d.pos, p[:t])
@@ -261,6 +268,7 @@ type wrCfg struct {
 	pre              []byte
 	pos              int // position of the destination when the encoder gets it
 	reuse            int // rs=
+	app              bool // ap=1
 	faults           map[int]int
 	shorts           map[int]int
 	cont             bool
@@ -278,13 +286,16 @@ func wrParse(args []string) (*wrCfg, bool) {
 		return nil, false
 	}
 	c := &wrCfg{kind: kv["k"], mode: kv["m"], bs: atoi(kv["bs"]), arch: atoi(kv["a"]), hopt: atoi(kv["h"]), lmt: atoi(kv["l"]),
-		pv: atoi(kv["pv"]), v: atoi(kv["v"]), reuse: atoi(kv["rs"]), cont: kv["c"] == "1", files: files, raw: kv, fileToks: rest, faults: map[int]int{}, shorts: map[int]int{}}
+		pv: atoi(kv["pv"]), v: atoi(kv["v"]), reuse: atoi(kv["rs"]), app: kv["ap"] == "1", cont: kv["c"] == "1", files: files, raw: kv, fileToks: rest, faults: map[int]int{}, shorts: map[int]int{}}
 	if p := kv["pre"]; p != "" && p != "-" {
 		b, err := hex.DecodeString(p)
 		if err != nil {
 			return nil, false
 		}
 		c.pre = b
+	}
+	if c.app && c.kind == "at" {
+		return nil, false
 	}
 	c.pos = len(c.pre)
 	if p, ok := kv["pos"]; ok {
@@ -372,6 +383,7 @@ func wrRun(c *wrCfg, faults map[int]int) (o wrOut, bad bool) { return wrRunS(c, 
 func wrRunS(c *wrCfg, faults, shorts map[int]int) (o wrOut, bad bool) {
 	w, d := wrNewDest(c.kind, c.pre, c.pos, faults)
 	d.shorts = shorts
+	d.app = c.app
 	call := func(f func() error) bool {
 		before := len(d.fired)
 		err := f()
@@ -518,7 +530,7 @@ func wrLogLen(e string) int {
 
 func execWrX(args []string) string {
 	c, ok := wrParse(args)
-	if !ok || c.hasFaultArgument {
+	if !ok || c.hasFaultArgument || c.app {
 		return "bad-op"
 	}
 	base, bad := wrRun(c, nil)
@@ -591,7 +603,7 @@ func execWrC(args []string) string {
 			}
 			for _, bs := range wrSizes {
 				cc := *c
-				cc.kind, cc.mode, cc.bs, cc.pos, cc.reuse = kind, mode, bs, len(c.pre), 0
+				cc.kind, cc.mode, cc.bs, cc.pos, cc.reuse, cc.app = kind, mode, bs, len(c.pre), 0, false
 				o, bad := wrRun(&cc, nil)
 				if bad {
 					return "bad-op"
@@ -830,7 +842,12 @@ func genEncWriters(emit func(string), tier string, rng *Rng) {
 		if rng.Intn(8) == 0 {
 			cont = 1
 		}
-		emit(fmt.Sprintf("wr k=%s bs=%d m=%s %s pre=%s%s%s f=- c=%d %s", kind, wrRandSize(rng), mode, g.toks(), pre, wrPos(rng, pre), wrReuse(rng), cont, strings.Join(wrFileTokens(files), " ")))
+		ap := ""
+		if kind != "at" && rng.Intn(25) == 0 {
+			ap = " ap=1"
+			count("append-mode")
+		}
+		emit(fmt.Sprintf("wr k=%s bs=%d m=%s %s pre=%s%s%s%s f=- c=%d %s", kind, wrRandSize(rng), mode, g.toks(), pre, wrPos(rng, pre), wrReuse(rng), ap, cont, strings.Join(wrFileTokens(files), " ")))
 		count("wr/" + mode + "/" + kind)
 		count(fmt.Sprintf("files=%d", nfiles))
 		if pre != "-" {
